@@ -110,6 +110,16 @@ func newRig(ti *terminfo.Terminfo, cs, locale string, wd, ht int) *rig {
 	os.Setenv("LC_ALL", locale)
 	os.Unsetenv("LC_CTYPE")
 	os.Unsetenv("LANG")
+	r, got := newRigEnv(ti, cs, wd, ht)
+	if !strings.EqualFold(got, cs) {
+		panic(fmt.Sprintf("locale %s selected charset %s, want %s", locale, got, cs))
+	}
+	return r
+}
+
+// newRigEnv builds the rig for the charset cs under whatever locale variables are set now and
+// returns what the screen reports as its character set.
+func newRigEnv(ti *terminfo.Terminfo, cs string, wd, ht int) (*rig, string) {
 	os.Setenv("TCELL_TRUECOLOR", "disable")
 	r := &rig{ti: ti, cs: cs, fb: map[rune]string{}}
 	if cs != "UTF-8" {
@@ -135,16 +145,13 @@ func newRig(ti *terminfo.Terminfo, cs, locale string, wd, ht int) *rig {
 		panic(err)
 	}
 	if err := s.Init(); err != nil {
-		panic(fmt.Sprint(cs, locale, err))
-	}
-	if got := s.CharacterSet(); !strings.EqualFold(got, cs) {
-		panic(fmt.Sprintf("locale %s selected charset %s, want %s", locale, got, cs))
+		panic(fmt.Sprint(cs, err))
 	}
 	r.s = s
 	for k, v := range tcell.RuneFallbacks {
 		r.fb[k] = v
 	}
-	return r
+	return r, s.CharacterSet()
 }
 
 // expect says what a cell holding rune x (alone) must display: the characters in order.
@@ -339,6 +346,84 @@ func sweep(entries []common.Entry) {
 		}
 	}
 	w.Sample(map[string]interface{}{"sweep": "xterm-256color / ISO8859-1 / U+2500 (RuneHLine)", "expect": "ESC(0 q ESC(B -> the terminal shows U+2500; CanDisplay(r,false)=true"})
+}
+
+// envShapes: the character set is selected by the locale variables as POSIX orders them: the
+// first of LC_ALL, LC_CTYPE, LANG that is set to a NON-EMPTY value decides (an empty value
+// counts as unset); "C"/"POSIX" mean US-ASCII, a codeset after '.' (modifier after '@'
+// dropped) names the charset, no codeset means UTF-8. Every combination of 8 values for the
+// three variables; the screen must report that charset and draw a Cyrillic letter
+// accordingly (its byte in that charset, or '?').
+func envShapes(entries []common.Entry) {
+	var ti *terminfo.Terminfo
+	for _, e := range entries {
+		if e.Name == "xterm-256color" {
+			ti = e.Ti
+		}
+	}
+	vals := []string{"<unset>", "", "C", "POSIX", "en_US.UTF-8", "ru_RU.KOI8-R", "de_DE.ISO8859-1@euro", "en_US"}
+	vars := []string{"LC_ALL", "LC_CTYPE", "LANG"}
+	csOf := func(v string) string {
+		if v == "C" || v == "POSIX" {
+			return "US-ASCII"
+		}
+		if i := strings.IndexByte(v, '@'); i >= 0 {
+			v = v[:i]
+		}
+		if i := strings.IndexByte(v, '.'); i >= 0 {
+			return v[i+1:]
+		}
+		return "UTF-8"
+	}
+	item := 9000
+	for a := range vals {
+		for b := range vals {
+			for c := range vals {
+				item++
+				if !hc.Mine(item) {
+					continue
+				}
+				w.R.Evaluations++
+				pick := []int{a, b, c}
+				want := "UTF-8"
+				var desc []string
+				decided := false
+				for i, name := range vars {
+					v := vals[pick[i]]
+					if v == "<unset>" {
+						os.Unsetenv(name)
+						desc = append(desc, name+" unset")
+						continue
+					}
+					os.Setenv(name, v)
+					desc = append(desc, fmt.Sprintf("%s=%q", name, v))
+					if !decided && v != "" {
+						want = csOf(v)
+						decided = true
+					}
+				}
+				r, got := newRigEnv(ti, want, 4, 1)
+				ctx := strings.Join(desc, " ")
+				if !strings.EqualFold(got, want) {
+					w.Violation("locale-charset:"+want, fmt.Sprintf("%s: the screen uses character set %s, the locale selects %s", ctx, got, want), map[string]interface{}{"env": desc})
+				} else {
+					r.s.SetContent(0, 0, 0x0416, nil, tcell.StyleDefault)
+					r.s.Show()
+					chars, _, _ := r.expect(0x0416)
+					if sig, d := r.health(ctx); sig != "" {
+						w.Violation("locale-draw:"+sig, d, map[string]interface{}{"env": desc})
+					} else if c0 := r.term.At(0, 0); c0.R != chars[0] {
+						w.Violation("locale-draw:"+want, fmt.Sprintf("%s (charset %s): U+0416 is shown as %q, want %q", ctx, want, c0.R, chars[0]), map[string]interface{}{"env": desc})
+					}
+				}
+				r.s.Fini()
+				w.AddDistinct(1)
+			}
+		}
+	}
+	for _, name := range vars {
+		os.Unsetenv(name)
+	}
 }
 
 // acsAll: every database entry (not only the four class representatives) x three single-byte
@@ -542,6 +627,7 @@ func main() {
 	}
 	sweep(entries)
 	acsAll(entries)
+	envShapes(entries)
 	histories(entries)
 	w.Finish()
 }
